@@ -224,7 +224,16 @@ def build(run, modules):
 
 
 def audit(run, module, thorough=False):
-    """Every `theorem Cxx_*` of the property file must exist, be sorry-free and use only the standard axioms."""
+    """Every theorem of the property file(s) must exist, be sorry-free and use only the standard axioms (`module`: a module name
+    or a list of them: the property's main file and further files holding theorems of the same property)."""
+    if isinstance(module, (list, tuple)):
+        names, ok = [], 0
+        for m in module:
+            audit(run, m, thorough)
+            names += run.theorems
+            ok += run.discharged
+        run.theorems, run.discharged = names, ok
+        return
     path = os.path.join(LEAN, *module.split(".")) + ".lean"
     src = open(path, encoding="utf-8").read()
     names = re.findall(r"^theorem\s+([A-Za-z0-9_.']+)", strip_comments(src), flags=re.M)
@@ -235,7 +244,7 @@ def audit(run, module, thorough=False):
         if FORBIDDEN.search(strip_comments(open(p, encoding="utf-8").read())):
             raise InfraError("forbidden construct (sorry/admit/axiom/native_decide/...) in " + p)
     os.makedirs(os.path.join(LEAN, ".lake", "audit"), exist_ok=True)
-    apath = os.path.join(LEAN, ".lake", "audit", run.pid + ".lean")
+    apath = os.path.join(LEAN, ".lake", "audit", run.pid + ("" if module == run.prop.MODULE else "-" + module.split(".")[-1]) + ".lean")
     with open(apath, "w") as f:
         f.write("import %s\n" % module)
         for n in names:
@@ -285,7 +294,8 @@ def write_evidence(run, violations):
             "obligations": len(run.theorems) + (1 if run.build_broken else 0),
             "discharged": run.discharged,
             "theorems": run.theorems,
-            "checker_cmd": "cd lean && lake build %s && lake env lean .lake/audit/%s.lean  (#print axioms of every listed theorem)" % (prop.MODULE, run.pid),
+            "checker_cmd": "cd lean && lake build %s && lake env lean .lake/audit/%s*.lean  (#print axioms of every listed theorem)" % (
+                " ".join([prop.MODULE] + list(getattr(prop, "EXTRA_MODULES", []))), run.pid),
             "trusted_base": TRUSTED_BASE + list(getattr(prop, "TRUSTED", [])),
             "evaluations": run.evaluations,
             "distinct_nontrivial": len(run.nontrivial),
@@ -401,11 +411,13 @@ def main(prop, argv):
                 return 0
             print("VIOLATION property=%s replay=%s" % (run.pid, args.replay))
             return 1
-        built = build(run, [prop.MODULE])
+        modules = [prop.MODULE] + list(getattr(prop, "EXTRA_MODULES", []))
+        built = build(run, modules)
         if built:
-            audit(run, prop.MODULE, thorough=(args.tier == "thorough"))
+            audit(run, modules, thorough=(args.tier == "thorough"))
         else:
-            run.theorems = re.findall(r"^theorem\s+([A-Za-z0-9_.']+)", strip_comments(open(os.path.join(LEAN, *prop.MODULE.split(".")) + ".lean").read()), flags=re.M)
+            run.theorems = [n for m in modules for n in re.findall(
+                r"^theorem\s+([A-Za-z0-9_.']+)", strip_comments(open(os.path.join(LEAN, *m.split(".")) + ".lean").read()), flags=re.M)]
         if os.path.exists(DRIVER):
             run.model = Model()
         cov = None
